@@ -241,6 +241,12 @@ def pipeline_cases(ctx):
         fmt = rng.choice(["klmGac", "podGac"])
         n = 16
         start_ms = ydm_to_ms(2002, 187, 68700000) if fmt == "klmGac" else ydm_to_ms(2000, 322, 3600000)
+        crossing = k % 2 == 1
+        if crossing:
+            # the pass crosses UTC midnight (after line index 1..n-3): the midnight attribute of every file written from
+            # this reader - the first and the later ones - is the line's position among the rows of THAT file
+            day = (2002, 187) if fmt == "klmGac" else (2000, 321)
+            start_ms = ydm_to_ms(day[0], day[1], 86400000 - 500 * rng.randint(2, n - 2) - rng.choice([0, 1, 250]))
         tp = timesgen.TimePass(fmt, list(range(1, n + 1)), start_ms)
         b = tp.build(ctx, rng)
         lead, trail = rng.choice([0, 2]), rng.choice([0, 1])
@@ -249,65 +255,86 @@ def pipeline_cases(ctx):
         if trail:
             b.quality[n - trail:] = bit
         num = n - lead - trail
-        start, end = rng.choice([(0, 0), (1, 0), (2, 5), (0, num + 3), (num, 0)])
+        pool = [(0, 0), (1, 0), (2, 5), (0, num + 3), (num, 0), (3, 0), (5, 9), (1, 2)]
+        requests = [rng.choice(pool[:5])] + ([rng.choice(pool) for _ in range(rng.randint(1, 2))] if crossing or k % 4 == 0 else [])
         data = b.tobytes()
         r = filegen.reader_class(fmt)(tle_dir=filegen.tle_dir(ctx), tle_name="TLE_%(satname)s.txt")
         r.read(b.dsname, fileobj=io.BytesIO(data))
-        out = os.path.join(ctx.scratch, "h5pipe")
-        shutil.rmtree(out, ignore_errors=True)
-        os.makedirs(out)
-        payload = {"fmt": fmt, "lead": lead, "trail": trail, "start": start, "end": end, "stream": "pipeline"}
-        rows = expected_rows(n, lead, trail, start, end)
-        try:
+        for nreq, (start, end) in enumerate(requests):
+            out = os.path.join(ctx.scratch, "h5pipe")
+            shutil.rmtree(out, ignore_errors=True)
+            os.makedirs(out)
+            payload = {"fmt": fmt, "lead": lead, "trail": trail, "start": start, "end": end, "stream": "pipeline",
+                       "requests_on_this_reader": requests[:nreq + 1], "start_ms": start_ms}
+            rows = expected_rows(n, lead, trail, start, end)
+            try:
+                with warnings.catch_warnings():
+                    warnings.simplefilter("ignore")
+                    r.save(start, end, output_file_prefix="VERIF", output_dir=out)
+                status = "ok"
+            except ValueError:
+                status = "valueerror"
+            if rows is None:
+                if status != "valueerror":
+                    ctx.violation("%s Reader.save(start=%d): start beyond the %d valid lines was not rejected" % (fmt, start, num), payload,
+                                  cls="start-beyond-not-rejected")
+                ctx.case((fmt, lead, trail, start, end, nreq), branch="pipeline/reject")
+                continue
+            if status != "ok":
+                ctx.violation("%s Reader.save(%d, %d) raised ValueError" % (fmt, start, end), payload, cls="save-fails:valueerror")
+                continue
             with warnings.catch_warnings():
                 warnings.simplefilter("ignore")
-                r.save(start, end, output_file_prefix="VERIF", output_dir=out)
-            status = "ok"
-        except ValueError:
-            status = "valueerror"
-        if rows is None:
-            if status != "valueerror":
-                ctx.violation("%s Reader.save(start=%d): start beyond the %d valid lines was not rejected" % (fmt, start, num), payload,
-                              cls="start-beyond-not-rejected")
-            ctx.case((fmt, lead, trail, start, end), branch="pipeline/reject")
-            continue
-        if status != "ok":
-            ctx.violation("%s Reader.save(%d, %d) raised ValueError" % (fmt, start, end), payload, cls="save-fails:valueerror")
-            continue
-        with warnings.catch_warnings():
-            warnings.simplefilter("ignore")
-            ch = r.get_calibrated_channels()
-            if ch.shape[-1] == 5:
-                ch = r._get_calibrated_channels_uniform_shape()
-            lons, lats = r.get_lonlat()
-            sat_azi, sat_zen, sun_azi, sun_zen, rel_azi = r.get_angles()
-        R = np.array(rows)
-        enc = lambda a, sc, off, fill: np.where(np.isnan(a[R]), fill, np.trunc((a[R] - off) * sc)).astype(np.int64)
-        fa = h5py.File(glob.glob(os.path.join(out, "VERIF_avhrr_*.h5"))[0], "r")
-        fs = h5py.File(glob.glob(os.path.join(out, "VERIF_sunsatangles_*.h5"))[0], "r")
-        bad = []
-        for ds, (slot, off) in {"image1": (0, 0.0), "image2": (1, 0.0), "image6": (2, 0.0), "image3": (3, 273.15),
-                                "image4": (4, 273.15), "image5": (5, 273.15)}.items():
-            g = fa["/%s/data" % ds][...].astype(np.int64)
-            w = enc(ch[:, :, slot], 100.0, off, -32001)
-            if g.shape != w.shape or np.abs(g - w).max() > 1:
-                bad.append("avhrr/" + ds)
-        for ds, arr in {"image1": sun_zen, "image2": sat_zen, "image3": rel_azi, "image4": sun_azi, "image5": sat_azi}.items():
-            g = fs["/%s/data" % ds][...].astype(np.int64)
-            w = enc(arr, 100.0, 0.0, -32001)
-            if g.shape != w.shape or np.abs(g - w).max() > 1:
-                bad.append("sunsatangles/" + ds)
-        for nm, arr in (("lat", lats), ("lon", lons)):
-            g = fa["/where/%s/data" % nm][...].astype(np.int64)
-            w = enc(arr, 1000.0, 0.0, -999999)
-            if g.shape != w.shape or np.abs(g - w).max() > 1:
-                bad.append("avhrr/where/" + nm)
-        fa.close()
-        fs.close()
-        if bad:
-            ctx.violation("%s Reader.save(%d, %d), %d/%d lines without coordinates: %s differ from rows %d..%d of the reader's products" % (
-                fmt, start, end, lead, trail, ", ".join(bad), rows[0], rows[-1]), payload, cls="pipeline-rows")
-        ctx.case((fmt, lead, trail, start, end), nontrivial=True, branch="pipeline/rows")
+                ch = r.get_calibrated_channels()
+                if ch.shape[-1] == 5:
+                    ch = r._get_calibrated_channels_uniform_shape()
+                lons, lats = r.get_lonlat()
+                sat_azi, sat_zen, sun_azi, sun_zen, rel_azi = r.get_angles()
+                times = np.asarray(r.get_times()).astype("datetime64[ms]").astype(np.int64)
+            R = np.array(rows)
+            enc = lambda a, sc, off, fill: np.where(np.isnan(a[R]), fill, np.trunc((a[R] - off) * sc)).astype(np.int64)
+            fa = h5py.File(glob.glob(os.path.join(out, "VERIF_avhrr_*.h5"))[0], "r")
+            fs = h5py.File(glob.glob(os.path.join(out, "VERIF_sunsatangles_*.h5"))[0], "r")
+            fq = h5py.File(glob.glob(os.path.join(out, "VERIF_qualflags_*.h5"))[0], "r")
+            bad = []
+            for ds, (slot, off) in {"image1": (0, 0.0), "image2": (1, 0.0), "image6": (2, 0.0), "image3": (3, 273.15),
+                                    "image4": (4, 273.15), "image5": (5, 273.15)}.items():
+                g = fa["/%s/data" % ds][...].astype(np.int64)
+                w = enc(ch[:, :, slot], 100.0, off, -32001)
+                if g.shape != w.shape or np.abs(g - w).max() > 1:
+                    bad.append("avhrr/" + ds)
+            for ds, arr in {"image1": sun_zen, "image2": sat_zen, "image3": rel_azi, "image4": sun_azi, "image5": sat_azi}.items():
+                g = fs["/%s/data" % ds][...].astype(np.int64)
+                w = enc(arr, 100.0, 0.0, -32001)
+                if g.shape != w.shape or np.abs(g - w).max() > 1:
+                    bad.append("sunsatangles/" + ds)
+            for nm, arr in (("lat", lats), ("lon", lons)):
+                g = fa["/where/%s/data" % nm][...].astype(np.int64)
+                w = enc(arr, 1000.0, 0.0, -999999)
+                if g.shape != w.shape or np.abs(g - w).max() > 1:
+                    bad.append("avhrr/where/" + nm)
+            q = fq["/qual_flags/data"][...].astype(np.int64)
+            if q.shape[0] != len(rows) or not np.array_equal(q[:, 0], np.asarray(r.scans["scan_line_number"]).astype(np.int64)[R]):
+                bad.append("qualflags/qual_flags(line numbers)")
+            mid_attr = fq["/ancillary"].attrs["midnight_scanline"]
+            mid_attr = mid_attr.decode() if isinstance(mid_attr, bytes) else str(mid_attr)
+            fa.close()
+            fs.close()
+            fq.close()
+            if bad:
+                ctx.violation("%s Reader.save(%d, %d)%s, %d/%d lines without coordinates: %s differ from rows %d..%d of the reader's products" % (
+                    fmt, start, end, "" if nreq == 0 else " (request no. %d on this reader)" % (nreq + 1), lead, trail, ", ".join(bad),
+                    rows[0], rows[-1]), payload, cls="pipeline-rows")
+            days = times // 86400000
+            steps = [i for i in range(len(days) - 1) if days[i + 1] > days[i]]
+            mid = steps[0] if len(steps) == 1 else None
+            want_mid = str(mid - rows[0]) if mid is not None and rows[0] <= mid <= rows[-1] else "None"
+            if mid_attr != want_mid:
+                ctx.violation("%s Reader.save(%d, %d)%s: midnight line attribute %r, expected %r (the date of the returned times changes after "
+                              "line index %s; rows %d..%d written)" % (fmt, start, end, "" if nreq == 0 else " (request no. %d on this reader)" % (nreq + 1),
+                                                                     mid_attr, want_mid, mid, rows[0], rows[-1]), payload, cls="pipeline-midnight")
+            ctx.case((fmt, lead, trail, start, end, nreq, crossing), nontrivial=True,
+                     branch="pipeline/rows/%s/%s" % ("crossing" if crossing else "same-day", "first" if nreq == 0 else "later"))
 
 
 def run(ctx):
